@@ -129,12 +129,15 @@ package pogreb
 //@ func (db *DB) compact(sourceSeg *segment) (cr CompactionResult, err error) [C05,C06,C15]
 //@   requires inv: dbFull(db)
 //@   requires member: sourceSeg != nil && sourceSeg.id < 32767 && db.datalog.segments[sourceSeg.id] == sourceSeg
+// (defect D9) the segment was sealed in the critical section that picked it: nothing was written to it since
+//@   requires [C05] sealed: sourceSeg.meta.Full
 //@   requires unlocked: lockSt[fieldaddr(db, mu)] == 0
 //@   ensures inv: err == nil ==> dbFull(db)
 //@   ensures [C15] removed: err == nil ==> db.datalog.segments[sourceSeg.id] == nil && dirFid[db.opts.FileSystem][sourceSeg.name] == 0 && dirFid[db.opts.FileSystem][sourceSeg.name + ".pmt"] == 0 && !hOpen[sourceSeg.file.File]
 //@   ensures [C05] others-kept: forall i int :: 0 <= i && i < 32767 && i != int(sourceSeg.id) && old(db.datalog.segments[i]) != nil ==> db.datalog.segments[i] == old(db.datalog.segments[i])
 //@   ensures unlocked: lockSt[fieldaddr(db, mu)] == 0
 //@   ensures [C12] other-locks: lockSt[fieldaddr(db, maintenanceMu)] == old(lockSt[fieldaddr(db, maintenanceMu)])
+//@   ensures fullmono: forall m *segmentMeta :: old(m.Full) ==> m.Full
 // the source segment is removed only after its iterator has reached the end of the file: every record was looked at
 //@   at call removeSegment@1: assert [C05] whole-segment-read: int64(it.offset) >= sourceSeg.file.size
 //@   modifies lockSt[fieldaddr(db, mu)], any(datalog).curSeg, any(datalog).segments, any(datalog).maxSequenceID, any(segmentMeta).Full, any(segmentMeta).PutRecords, any(segmentMeta).DeleteRecords, any(file).size, dirFid, fLen, fDur, fData, hOpen, hPos, fidOf, fidName, elems(byte)
@@ -143,4 +146,5 @@ package pogreb
 //@     invariant dbFull(db) && lockSt[fieldaddr(db, mu)] == 0 && lockSt[fieldaddr(db, maintenanceMu)] == old(lockSt[fieldaddr(db, maintenanceMu)])
 //@     invariant db.datalog.segments[sourceSeg.id] == sourceSeg && sourceSeg.meta.Full && sourceSeg.id < 32767
 //@     invariant it != nil && segItInv(it) && it.f == sourceSeg
+//@     invariant forall m *segmentMeta :: old(m.Full) ==> m.Full
 //@     invariant forall i int :: 0 <= i && i < 32767 && old(db.datalog.segments[i]) != nil ==> db.datalog.segments[i] == old(db.datalog.segments[i])
